@@ -12,7 +12,8 @@
 --
 -- NOT instantiated here: the five extension records of the driver (`quadOps`/`cubeOps` in Winter/Drv/C20.lean are
 -- a local copy built directly on the generated `ext2_*`/`ext3_*` formulas, not C08's `Model.Quad`/`Model.Cube`);
--- for them the C20 theorems keep the hypothesis `Lawful`, and C08Inst's `q64_raw_refines` … state the field laws
+-- for them the C20 theorems keep the hypothesis `Lawful` (as do `mul_acc` and the chunked variants, which are not
+-- restated per field), and C08Inst's `q64_raw_refines` … state the field laws
 -- for C08's model of the same formulas.
 import WinterProofs.C20
 import WinterProofs.Lemmas.C20Hom
@@ -320,6 +321,108 @@ theorem raw_get_power_series (b : ℕ) (n : ℕ) (hb : ok b) :
   have := map_getPowerSeries (lawful_subOpsP H) ⟨b, hb⟩ n
   simpa [List.map_map, subVal, Function.comp_def] using this
 
+theorem raw_syn_div_roots (l roots : List ℕ) (hl : ∀ c ∈ l, ok c) (hr : ∀ c ∈ roots, ok c)
+    (hne : roots ≠ []) (hp : roots.length < l.length) :
+    ∃ q, synDivRoots (Drv.C20.opsOf I) l roots = .ok q ∧ (∀ c ∈ q, ok c) ∧ q.length = l.length ∧
+      toPoly val q = toPoly val l /ₘ rootsPoly (roots.map val) := by
+  have hne' : lift roots hr ≠ [] := by
+    intro h0; exact hne (by rw [← map_val_lift roots hr, h0]; rfl)
+  obtain ⟨q', e', l', hq'⟩ := synDivRoots_spec (lawful_subOpsP H) (lift l hl) (lift roots hr) hne'
+    (by simpa [length_lift] using hp)
+  have e := hom_synDivRoots (hom_subOpsP H hexp0) (lift l hl) (lift roots hr)
+  rw [map_val_lift, map_val_lift, e'] at e
+  refine ⟨q'.map Subtype.val, e, all_ok_map_val _, by simpa [length_lift] using l', ?_⟩
+  rw [toPoly_map_val, hq', toPoly_lift, map_subVal_lift]
+
+theorem raw_add_in_place (a b : List ℕ) (ha : ∀ c ∈ a, ok c) (hb : ∀ c ∈ b, ok c) (h : a.length = b.length) :
+    ∃ r, addInPlace (Drv.C20.opsOf I) a b = .ok r ∧ (∀ c ∈ r, ok c) ∧ r.length = a.length ∧
+      r.map val = List.zipWith (· + ·) (a.map val) (b.map val) := by
+  obtain ⟨r', e', l', hr'⟩ := addInPlace_spec (lawful_subOpsP H) (lift a ha) (lift b hb)
+    (by simpa [length_lift] using h)
+  have e := hom_addInPlace (hom_subOpsP H hexp0) (lift a ha) (lift b hb)
+  rw [map_val_lift, map_val_lift, e'] at e
+  refine ⟨r'.map Subtype.val, e, all_ok_map_val _, by simpa [length_lift] using l', ?_⟩
+  have h1 : (r'.map Subtype.val).map val = r'.map (subVal val ok) := by simp [subVal]
+  rw [h1, hr', map_subVal_lift, map_subVal_lift]
+
+omit H hexp0 in
+theorem subVal_lift_getElem (l : List ℕ) (hl : ∀ c ∈ l, ok c) (j : ℕ) (hj : j < l.length)
+    (hj' : j < (lift l hl).length) : subVal val ok (lift l hl)[j] = val l[j] := by
+  have := congrArg (fun l => l[j]?) (map_subVal_lift (val := val) l hl)
+  simpa [List.getElem?_map, List.getElem?_eq_getElem hj', List.getElem?_eq_getElem hj] using this
+
+/-- nested lists (batches) of invariant-satisfying raw words over the restricted carrier -/
+def liftL (xss : List (List ℕ)) (h : ∀ b ∈ xss, ∀ c ∈ b, ok c) : List (List {x : ℕ // ok x}) :=
+  xss.pmap (fun b hb => lift b hb) h
+
+omit H hexp0 in
+theorem map_val_liftL (xss : List (List ℕ)) (h : ∀ b ∈ xss, ∀ c ∈ b, ok c) :
+    (liftL xss h).map (List.map Subtype.val) = xss := by
+  induction xss with
+  | nil => rfl
+  | cons b bs ih =>
+    have := ih (fun b' hb' => h b' (List.mem_cons_of_mem _ hb'))
+    simp only [liftL, List.pmap, List.map_cons] at this ⊢
+    rw [map_val_lift, this]
+
+omit H hexp0 in
+theorem length_liftL (xss : List (List ℕ)) (h : ∀ b ∈ xss, ∀ c ∈ b, ok c) :
+    (liftL xss h).length = xss.length := by simp [liftL]
+
+omit H hexp0 in
+theorem getElem_liftL (xss : List (List ℕ)) (h : ∀ b ∈ xss, ∀ c ∈ b, ok c) (i : ℕ) (hi : i < xss.length)
+    (hi' : i < (liftL xss h).length) : (liftL xss h)[i] = lift xss[i] (h _ (List.getElem_mem hi)) := by
+  simp [liftL, List.getElem_pmap]
+
+/-- `interpolate_batch::<E, N>` on raw words: batches of `N` invariant-satisfying words each -/
+theorem raw_interpolate_batch (N : ℕ) (xss yss : List (List ℕ))
+    (hx : ∀ b ∈ xss, ∀ c ∈ b, ok c) (hy : ∀ b ∈ yss, ∀ c ∈ b, ok c)
+    (hlen : xss.length = yss.length) (hxN : ∀ b ∈ xss, b.length = N) (hyN : ∀ b ∈ yss, b.length = N) :
+    ∃ polys, interpolateBatch (Drv.C20.opsOf I) N xss yss = .ok polys ∧ polys.length = xss.length ∧
+      (∀ q ∈ polys, q.length = N ∧ ∀ c ∈ q, ok c) ∧
+      ∀ i (hi : i < xss.length) (hp : i < polys.length), (xss[i].map val).Nodup →
+        ∀ j (hjx : j < xss[i].length) (hjy : j < (yss[i]'(hlen ▸ hi)).length),
+          (toPoly val polys[i]).eval (val xss[i][j]) = val (yss[i]'(hlen ▸ hi))[j] := by
+  have hlen' : (liftL xss hx).length = (liftL yss hy).length := by simp [length_liftL, hlen]
+  have hxN' : ∀ b ∈ liftL xss hx, b.length = N := by
+    intro b hb
+    obtain ⟨i, hi, rfl⟩ := List.getElem_of_mem hb
+    have hi2 : i < xss.length := by simpa [length_liftL] using hi
+    rw [getElem_liftL xss hx i hi2 hi, length_lift]; exact hxN _ (List.getElem_mem hi2)
+  have hyN' : ∀ b ∈ liftL yss hy, b.length = N := by
+    intro b hb
+    obtain ⟨i, hi, rfl⟩ := List.getElem_of_mem hb
+    have hi2 : i < yss.length := by simpa [length_liftL] using hi
+    rw [getElem_liftL yss hy i hi2 hi, length_lift]; exact hyN _ (List.getElem_mem hi2)
+  obtain ⟨polys', e', lp, hq, hev⟩ := interpolateBatch_spec (lawful_subOpsP H) (total_subOpsP H) N
+    (liftL xss hx) (liftL yss hy) hlen' hxN' hyN'
+  have e := hom_interpolateBatch (hom_subOpsP H hexp0) N (liftL xss hx) (liftL yss hy)
+  rw [map_val_liftL, map_val_liftL, e'] at e
+  refine ⟨polys'.map (List.map Subtype.val), e, by simpa [length_liftL] using lp, ?_, ?_⟩
+  · intro q hq'
+    obtain ⟨q', hq'm, rfl⟩ := List.mem_map.1 hq'
+    exact ⟨by simpa using hq q' hq'm, all_ok_map_val _⟩
+  · intro i hi hp hnd j hjx hjy
+    have hi1 : i < (liftL xss hx).length := by rw [length_liftL]; exact hi
+    have hp1 : i < polys'.length := by simpa using hp
+    have hi2 : i < yss.length := hlen ▸ hi
+    have hi3 : i < (liftL yss hy).length := by rw [length_liftL]; exact hi2
+    have ex := getElem_liftL xss hx i hi hi1
+    have ey := getElem_liftL yss hy i hi2 hi3
+    have hjx1 : j < ((liftL xss hx)[i]).length := by rw [ex, length_lift]; exact hjx
+    have hjy1 : j < ((liftL yss hy)[i]'(hlen' ▸ hi1)).length := by rw [ey, length_lift]; exact hjy
+    have := hev i hi1 hp1 (by rw [ex, map_subVal_lift]; exact hnd) j hjx1 hjy1
+    rw [List.getElem_map, toPoly_map_val]
+    have e1 : subVal val ok ((liftL xss hx)[i][j]) = val xss[i][j] := by
+      have := subVal_lift_getElem (val := val) xss[i] (hx _ (List.getElem_mem hi)) j hjx
+        (by rw [length_lift]; exact hjx)
+      simp only [ex]; exact this
+    have e2 : subVal val ok (((liftL yss hy)[i]'(hlen' ▸ hi1))[j]) = val (yss[i]'hi2)[j] := by
+      have := subVal_lift_getElem (val := val) (yss[i]'hi2) (hy _ (List.getElem_mem hi2)) j hjy
+        (by rw [length_lift]; exact hjy)
+      simp only [ey]; exact this
+    rw [← e1, ← e2]; exact this
+
 end Generic
 
 -- ================================================================================ 64-bit field
@@ -404,6 +507,28 @@ theorem f64_batch_inversion (vals : List ℕ) (hv : ∀ c ∈ vals, F64Z.Inv c) 
     ∃ r, batchInversion (Drv.C20.opsOf Model.F64.impl) vals = .ok r ∧ (∀ c ∈ r, F64Z.Inv c) ∧
       r.length = vals.length ∧ r.map F64Z.val = vals.map fun x => inv0 (F64Z.val x) :=
   raw_batch_inversion WinterProofs.C08.f64_implements f64_exp0 vals hv
+
+theorem f64_syn_div_roots (l roots : List ℕ) (hl : ∀ c ∈ l, F64Z.Inv c) (hr : ∀ c ∈ roots, F64Z.Inv c)
+    (hne : roots ≠ []) (hp : roots.length < l.length) :
+    ∃ q, synDivRoots (Drv.C20.opsOf Model.F64.impl) l roots = .ok q ∧ (∀ c ∈ q, F64Z.Inv c) ∧
+      q.length = l.length ∧ toPoly F64Z.val q = toPoly F64Z.val l /ₘ rootsPoly (roots.map F64Z.val) :=
+  raw_syn_div_roots WinterProofs.C08.f64_implements f64_exp0 l roots hl hr hne hp
+
+theorem f64_add_in_place (a b : List ℕ) (ha : ∀ c ∈ a, F64Z.Inv c) (hb : ∀ c ∈ b, F64Z.Inv c)
+    (h : a.length = b.length) :
+    ∃ r, addInPlace (Drv.C20.opsOf Model.F64.impl) a b = .ok r ∧ (∀ c ∈ r, F64Z.Inv c) ∧
+      r.length = a.length ∧ r.map F64Z.val = List.zipWith (· + ·) (a.map F64Z.val) (b.map F64Z.val) :=
+  raw_add_in_place WinterProofs.C08.f64_implements f64_exp0 a b ha hb h
+
+theorem f64_interpolate_batch (N : ℕ) (xss yss : List (List ℕ))
+    (hx : ∀ b ∈ xss, ∀ c ∈ b, F64Z.Inv c) (hy : ∀ b ∈ yss, ∀ c ∈ b, F64Z.Inv c)
+    (hlen : xss.length = yss.length) (hxN : ∀ b ∈ xss, b.length = N) (hyN : ∀ b ∈ yss, b.length = N) :
+    ∃ polys, interpolateBatch (Drv.C20.opsOf Model.F64.impl) N xss yss = .ok polys ∧
+      polys.length = xss.length ∧ (∀ q ∈ polys, q.length = N ∧ ∀ c ∈ q, F64Z.Inv c) ∧
+      ∀ i (hi : i < xss.length) (hp : i < polys.length), (xss[i].map F64Z.val).Nodup →
+        ∀ j (hjx : j < xss[i].length) (hjy : j < (yss[i]'(hlen ▸ hi)).length),
+          (toPoly F64Z.val polys[i]).eval (F64Z.val xss[i][j]) = F64Z.val (yss[i]'(hlen ▸ hi))[j] :=
+  raw_interpolate_batch WinterProofs.C08.f64_implements f64_exp0 N xss yss hx hy hlen hxN hyN
 
 theorem f64_get_power_series (b : ℕ) (n : ℕ) (hb : F64Z.Inv b) :
     (∀ c ∈ getPowerSeries (Drv.C20.opsOf Model.F64.impl) b n, F64Z.Inv c) ∧
@@ -504,6 +629,28 @@ theorem f62_batch_inversion (vals : List ℕ) (hv : ∀ c ∈ vals, F62Z.Inv c) 
       r.length = vals.length ∧ r.map F62Z.val = vals.map fun x => inv0 (F62Z.val x) :=
   raw_batch_inversion WinterProofs.C08.f62_implements f62_exp0 vals hv
 
+theorem f62_syn_div_roots (l roots : List ℕ) (hl : ∀ c ∈ l, F62Z.Inv c) (hr : ∀ c ∈ roots, F62Z.Inv c)
+    (hne : roots ≠ []) (hp : roots.length < l.length) :
+    ∃ q, synDivRoots (Drv.C20.opsOf Model.F62.impl) l roots = .ok q ∧ (∀ c ∈ q, F62Z.Inv c) ∧
+      q.length = l.length ∧ toPoly F62Z.val q = toPoly F62Z.val l /ₘ rootsPoly (roots.map F62Z.val) :=
+  raw_syn_div_roots WinterProofs.C08.f62_implements f62_exp0 l roots hl hr hne hp
+
+theorem f62_add_in_place (a b : List ℕ) (ha : ∀ c ∈ a, F62Z.Inv c) (hb : ∀ c ∈ b, F62Z.Inv c)
+    (h : a.length = b.length) :
+    ∃ r, addInPlace (Drv.C20.opsOf Model.F62.impl) a b = .ok r ∧ (∀ c ∈ r, F62Z.Inv c) ∧
+      r.length = a.length ∧ r.map F62Z.val = List.zipWith (· + ·) (a.map F62Z.val) (b.map F62Z.val) :=
+  raw_add_in_place WinterProofs.C08.f62_implements f62_exp0 a b ha hb h
+
+theorem f62_interpolate_batch (N : ℕ) (xss yss : List (List ℕ))
+    (hx : ∀ b ∈ xss, ∀ c ∈ b, F62Z.Inv c) (hy : ∀ b ∈ yss, ∀ c ∈ b, F62Z.Inv c)
+    (hlen : xss.length = yss.length) (hxN : ∀ b ∈ xss, b.length = N) (hyN : ∀ b ∈ yss, b.length = N) :
+    ∃ polys, interpolateBatch (Drv.C20.opsOf Model.F62.impl) N xss yss = .ok polys ∧
+      polys.length = xss.length ∧ (∀ q ∈ polys, q.length = N ∧ ∀ c ∈ q, F62Z.Inv c) ∧
+      ∀ i (hi : i < xss.length) (hp : i < polys.length), (xss[i].map F62Z.val).Nodup →
+        ∀ j (hjx : j < xss[i].length) (hjy : j < (yss[i]'(hlen ▸ hi)).length),
+          (toPoly F62Z.val polys[i]).eval (F62Z.val xss[i][j]) = F62Z.val (yss[i]'(hlen ▸ hi))[j] :=
+  raw_interpolate_batch WinterProofs.C08.f62_implements f62_exp0 N xss yss hx hy hlen hxN hyN
+
 theorem f62_get_power_series (b : ℕ) (n : ℕ) (hb : F62Z.Inv b) :
     (∀ c ∈ getPowerSeries (Drv.C20.opsOf Model.F62.impl) b n, F62Z.Inv c) ∧
       (getPowerSeries (Drv.C20.opsOf Model.F62.impl) b n).map F62Z.val = (List.range n).map fun i => F62Z.val b ^ i :=
@@ -602,6 +749,28 @@ theorem f128_batch_inversion (vals : List ℕ) (hv : ∀ c ∈ vals, F128Z.Inv c
     ∃ r, batchInversion (Drv.C20.opsOf Model.F128.impl) vals = .ok r ∧ (∀ c ∈ r, F128Z.Inv c) ∧
       r.length = vals.length ∧ r.map F128Z.val = vals.map fun x => inv0 (F128Z.val x) :=
   raw_batch_inversion WinterProofs.C08.f128_implements f128_exp0 vals hv
+
+theorem f128_syn_div_roots (l roots : List ℕ) (hl : ∀ c ∈ l, F128Z.Inv c) (hr : ∀ c ∈ roots, F128Z.Inv c)
+    (hne : roots ≠ []) (hp : roots.length < l.length) :
+    ∃ q, synDivRoots (Drv.C20.opsOf Model.F128.impl) l roots = .ok q ∧ (∀ c ∈ q, F128Z.Inv c) ∧
+      q.length = l.length ∧ toPoly F128Z.val q = toPoly F128Z.val l /ₘ rootsPoly (roots.map F128Z.val) :=
+  raw_syn_div_roots WinterProofs.C08.f128_implements f128_exp0 l roots hl hr hne hp
+
+theorem f128_add_in_place (a b : List ℕ) (ha : ∀ c ∈ a, F128Z.Inv c) (hb : ∀ c ∈ b, F128Z.Inv c)
+    (h : a.length = b.length) :
+    ∃ r, addInPlace (Drv.C20.opsOf Model.F128.impl) a b = .ok r ∧ (∀ c ∈ r, F128Z.Inv c) ∧
+      r.length = a.length ∧ r.map F128Z.val = List.zipWith (· + ·) (a.map F128Z.val) (b.map F128Z.val) :=
+  raw_add_in_place WinterProofs.C08.f128_implements f128_exp0 a b ha hb h
+
+theorem f128_interpolate_batch (N : ℕ) (xss yss : List (List ℕ))
+    (hx : ∀ b ∈ xss, ∀ c ∈ b, F128Z.Inv c) (hy : ∀ b ∈ yss, ∀ c ∈ b, F128Z.Inv c)
+    (hlen : xss.length = yss.length) (hxN : ∀ b ∈ xss, b.length = N) (hyN : ∀ b ∈ yss, b.length = N) :
+    ∃ polys, interpolateBatch (Drv.C20.opsOf Model.F128.impl) N xss yss = .ok polys ∧
+      polys.length = xss.length ∧ (∀ q ∈ polys, q.length = N ∧ ∀ c ∈ q, F128Z.Inv c) ∧
+      ∀ i (hi : i < xss.length) (hp : i < polys.length), (xss[i].map F128Z.val).Nodup →
+        ∀ j (hjx : j < xss[i].length) (hjy : j < (yss[i]'(hlen ▸ hi)).length),
+          (toPoly F128Z.val polys[i]).eval (F128Z.val xss[i][j]) = F128Z.val (yss[i]'(hlen ▸ hi))[j] :=
+  raw_interpolate_batch WinterProofs.C08.f128_implements f128_exp0 N xss yss hx hy hlen hxN hyN
 
 theorem f128_get_power_series (b : ℕ) (n : ℕ) (hb : F128Z.Inv b) :
     (∀ c ∈ getPowerSeries (Drv.C20.opsOf Model.F128.impl) b n, F128Z.Inv c) ∧
